@@ -80,6 +80,7 @@ class C06Scenario(ChangeScenario):
         daemons: dict[tuple[str, str, int], dict] = {}        # (uid, id, inst) -> {enter, flag, exit, op}
         timers_running: dict[tuple[str, str], int] = {}
         hspec = {h['id']: h for h in self.params['handlers']}
+        retired: dict[tuple[str, str], float] = {}    # (uid, handler) -> when its instance exited on its own
         view: dict[tuple[str, str], int] = {}    # (op, uid) -> version of the event being processed
         for t, k, p in env.obs:
             if k == 'call' and p['id'] == 'ev':
@@ -107,6 +108,8 @@ class C06Scenario(ChangeScenario):
                 d = daemons.get((p['uid'], p['id'], p['inst']))
                 if d is not None:
                     d['exit'] = t
+                    if d['flag'] is None and p.get('how') == 'returned':
+                        retired[(p['uid'], p['id'])] = t    # exited on its own: not restarted, requires nothing any more
             elif k == 'write' and p['actor'].startswith('op:') and p['objkind'] == K.plural:
                 w = env.world.writes[p['idx']]
                 pre, post = w['pre'], w['post']
@@ -124,6 +127,8 @@ class C06Scenario(ChangeScenario):
                 had, has = FINALIZER in f_pre, FINALIZER in f_post
                 marked = 'deletionTimestamp' in pre['metadata']
                 opid = p['actor'].split(':')[1]
+                rq = next((r for r in env.world.requests if r.rid == w.get('rid')), None)
+                t_decided = rq.t_issued if rq is not None else t      # a decision is judged by what was true when it was sent
                 pattern = self._decision_pattern(env, w, view.get((opid, uid))) if had != has else 'other'
                 if had and not has:
                     if marked:
@@ -151,13 +156,13 @@ class C06Scenario(ChangeScenario):
                                                              f"backoff={backoff}, timeout={timeout}) has neither exited nor been abandoned",
                                                              clause='early', why='daemon', pattern=pattern))
                     else:
-                        still = [h['id'] for h in req if self.matches(h, pre)]
+                        still = [h['id'] for h in req if self.matches(h, pre) and (uid, h['id']) not in retired]   # retired by now
                         if still:
                             out.append(self.viol(env, 'unblocked-while-required',
                                                  f"t={t}: finalizer removed from a live object that {still} still require",
                                                  clause='live-removal', pattern=pattern))
                 if not had and has:
-                    need = [h['id'] for h in req if self.matches(h, pre)]
+                    need = [h['id'] for h in req if self.matches(h, pre) and retired.get((uid, h['id']), float('inf')) >= t_decided]
                     if not need and not marked:
                         out.append(self.viol(env, 'blocked-needlessly',
                                              f"t={t}: finalizer added to an object that no handler requires", clause='needless', pattern=pattern))
@@ -171,7 +176,7 @@ class C06Scenario(ChangeScenario):
         if env.now >= t_last + SETTLE + 2 and running_op and not self.params.get('no_liveness') and not env.owes():
             for (ns, name), obj in env.world.objects[K.key].items():
                 uid = obj['metadata']['uid']
-                need = [h for h in req if self.matches(h, obj)]
+                need = [h for h in req if self.matches(h, obj) and (uid, h['id']) not in retired]
                 has = FINALIZER in fins(obj)
                 if 'deletionTimestamp' in obj['metadata']:
                     if not has:
@@ -258,6 +263,17 @@ def scenarios(tier: str) -> tuple[list[C06Scenario], list[C06Scenario]]:
                     user = [(1.0, 'create', 'a'), (3.0, 'addfin', 'a', 'other/fin'), (10.0, 'delete', 'a'), (11.0, 'delfin', 'a', 'other/fin')]
                 base.append(C06Scenario(handlers=handlers, user=user, settings=st, horizon=50.0, variant=variant,
                                         no_liveness=(reaction == 'ignore' and timeout is None) or (reaction == 'cancel' and timeout is None and False)))
+    # two spawned handlers: the first-registered one exits on its own, the other keeps requiring the finalizer
+    for second in (dict(id='dm2', on='daemon', reaction='cancel', cancellation_backoff=None, cancellation_timeout=3.0),
+                   dict(id='dm2', on='daemon', reaction='obeys', exit_delay=1.0),
+                   dict(id='tm2', on='timer', interval=4.0, script=['ok~1'])):
+        for order in (0, 1):
+            pair = [dict(id='dm', on='daemon', reaction='exits', lifetime=2.0), second]
+            handlers = pair if order == 0 else pair[::-1]
+            base.append(C06Scenario(handlers=handlers, user=[(1.0, 'create', 'a'), (5.0, 'status', 'a', 1), (10.0, 'delete', 'a'), (10.5, 'status', 'a', 2)],
+                                    settings=st, horizon=45.0, variant='siblings'))
+    base.append(C06Scenario(handlers=[dict(id='dm', on='daemon', reaction='exits', lifetime=2.0)],
+                            user=[(1.0, 'create', 'a'), (5.0, 'status', 'a', 1), (10.0, 'delete', 'a')], settings=st, horizon=45.0, variant='loner'))
     handlers = [dict(id='tm', on='timer', interval=4.0, script=['ok+sleep3']), dict(id='c1', on='create', script=['ok'])]
     for tdel in (9.0, 10.0, 11.5):
         base.append(C06Scenario(handlers=handlers, user=[(1.0, 'create', 'a'), (tdel, 'delete', 'a'), (tdel + 0.5, 'status', 'a', 1)],
